@@ -5,7 +5,8 @@ CHECKS = {
         "category": "exploration",
         "technique": "property-based testing (Hypothesis) against a brute-force nearest-element oracle",
         "text": "No counterexample among thousands (quick) / hundreds of thousands (thorough) of generated (grid, values) "
-                "pairs built to hit mid-points, end-points, repeated elements and out-of-range values; oracle is a brute-force "
+                "pairs built to hit mid-points, end-points, repeated elements and out-of-range values, in 1-3 dimensions, several dtypes "
+                "and memory layouts (C, Fortran, transposed, strided, reversed); oracle is a brute-force "
                 "minimum over the whole grid, plus idempotence, column-wise agreement and input immutability.",
         "note": "distance evaluated in correctly rounded double arithmetic; finite values only; not a proof.",
     },
@@ -29,7 +30,7 @@ CHECKS.update({
                     "5-value lattice (lists and ndarrays) is checked for the documented exception class, its payload and the documented "
                     "order of checks (exhaustive on that lattice; 3-parameter sub-lattice in the thorough tier); random specs with 1-6 "
                     "parameters check the grid against an exact-rational end-point rule.",
-            "note": "exhaustive only over the stated lattice; huge well-formed grids (>5e6 points per parameter) are not constructed; random specs include > 2^63-point spaces, signed / unsigned integer arrays up to the ends of the type's range, ints next to 2^53 (validation only) and integer parameters of magnitude up to 1e15."},
+            "note": "exhaustive only over the stated lattice; huge well-formed grids (>5e6 points per parameter) are not constructed; random specs include > 2^63-point spaces, 100-220-parameter spaces, verbose construction, signed / unsigned integer arrays up to the ends of the type's range, ints next to 2^53 (validation only) and integer parameters of magnitude up to 1e15."},
     "C19": {"category": "exploration", "technique": PBT + " of operation histories against a reference model and a twin agent",
             "text": "Histories of policy/learn/reseed on MABEpsilonGreedy are compared step by step with a reference implementation of the "
                     "incremental update rule, with a twin agent (determinism) and, after a re-seeding, with an agent constructed from another seed; reward sequences on MABCalibrationEnv are compared "
@@ -53,8 +54,9 @@ CHECKS.update({
     "C03": {"category": "exploration", "technique": PBT + " over (space, history, sampler, seed, call sequence) with an exact grid-membership oracle",
             "text": "All nine built-in samplers, generated spaces (scales 1e-6..1e6, aligned and non-aligned upper bounds), on-grid "
                     "histories with ties, 1-4 successive calls with the history extended as the calibrator does; every returned "
-                    "coordinate must be an element of the grid array itself and the shape (batch_size, d). Rediscovered the "
-                    "best-batch off-grid defect (fixed).",
+                    "coordinate must be an element of the grid array itself and the shape (batch_size, d); a calibration-level sub-check "
+                    "records every vector the (possibly argument-mutating) model is invoked with, for every ensemble member, and "
+                    "requires it to be on the grid. Rediscovered the best-batch off-grid defect (fixed).",
             "note": "third-party exceptions on degenerate histories are inconclusive; heavy samplers (GP/RF/CORS) get fewer cases."},
     "C16": {"category": "exploration", "technique": PBT + " with a recording stub surrogate, wrapped built-in surrogates and a provenance search for best-batch",
             "text": "History byte-identity for all nine samplers under extreme losses; stub and built-in surrogates: fit sees exactly "
